@@ -267,8 +267,67 @@ func (r FileReplacer) replace(d data.Data, cl Changelog) (_ *ast.File, replaced 
 		return nil, 0, err
 	}
 
-	err = r.Imports.Cleanup(d, file, newImports)
-	return file, replaced, err
+	if err := r.Imports.Cleanup(d, file, newImports); err != nil {
+		return nil, 0, err
+	}
+
+	parenthesize(file)
+	return file, replaced, nil
+}
+
+// parenthesize puts the parentheses into generated code that the printer
+// writes around an operand anyway, going by the precedence of the operators:
+// "a * x" with "b + c" for x is printed as "a * (b + c)", "x.f" with "*p" for
+// x as "(*p).f". Without them in the tree, a later change of the same run,
+// which is written against that text, would not find "a * (b + c)" there.
+//
+// Code that was parsed has these parentheses already.
+func parenthesize(f *ast.File) {
+	paren := func(x ast.Expr) ast.Expr {
+		return &ast.ParenExpr{Lparen: x.Pos(), X: x, Rparen: x.End()}
+	}
+	// operand is for the places where the printer asks for the highest
+	// precedence: what a selector, an index or a call is applied to.
+	operand := func(x ast.Expr) ast.Expr {
+		switch x.(type) {
+		case *ast.BinaryExpr, *ast.UnaryExpr, *ast.StarExpr:
+			return paren(x)
+		}
+		return x
+	}
+	astutil.Apply(f, nil, func(c *astutil.Cursor) bool {
+		switch n := c.Node().(type) {
+		case *ast.BinaryExpr:
+			prec := n.Op.Precedence()
+			if x, ok := n.X.(*ast.BinaryExpr); ok && x.Op.Precedence() < prec {
+				n.X = paren(x)
+			}
+			if y, ok := n.Y.(*ast.BinaryExpr); ok && y.Op.Precedence() <= prec {
+				n.Y = paren(y)
+			}
+		case *ast.UnaryExpr:
+			if x, ok := n.X.(*ast.BinaryExpr); ok {
+				n.X = paren(x)
+			}
+		case *ast.StarExpr:
+			if x, ok := n.X.(*ast.BinaryExpr); ok {
+				n.X = paren(x)
+			}
+		case *ast.SelectorExpr:
+			n.X = operand(n.X)
+		case *ast.IndexExpr:
+			n.X = operand(n.X)
+		case *ast.IndexListExpr:
+			n.X = operand(n.X)
+		case *ast.SliceExpr:
+			n.X = operand(n.X)
+		case *ast.TypeAssertExpr:
+			n.X = operand(n.X)
+		case *ast.CallExpr:
+			n.Fun = operand(n.Fun)
+		}
+		return true
+	})
 }
 
 type _fileMatchKey struct{}
